@@ -7,7 +7,10 @@ open PU Proto PBk PCB Drv
 abbrev B := Brk String Float
 abbrev S := Srv String Float
 
-def allSyms : List String := ["AAA", "BBB", "CCC", "ZZZ"]
+/-- the symbols a case can mention: those of its `DATA` line plus the never-quoted `ZZZ` -/
+def symUniverse (syms : List String) : List String :=
+  if syms.isEmpty then ["AAA", "BBB", "CCC", "ZZZ"]        -- a case without a `DATA` line (older corpus files)
+  else if syms.contains "ZZZ" then syms else syms ++ ["ZZZ"]
 
 structure W where
   v : Variant
@@ -38,8 +41,8 @@ def parseW : Nat → List String → List (String × Float)
 
 def sortStr (l : List String) : List String := (l.toArray.qsort (· < ·)).toList
 
-def showMap (m : String → Option Float) : String :=
-  let es := (sortStr allSyms).filterMap (fun s => (m s).map (fun v => s!"{s} {fb v}"))
+def showMap (univ : List String) (m : String → Option Float) : String :=
+  let es := (sortStr univ).filterMap (fun s => (m s).map (fun v => s!"{s} {fb v}"))
   s!"{es.length} {joinSp es}"
 
 def showEv : CashEv Float → String
@@ -63,13 +66,31 @@ def splitAnn (ts : List String) : List String × List (List String) :=
 def secOf (secs : List (List String)) (tag : String) : Option (List String) :=
   (secs.find? (fun s => s.head? == some tag)).map (·.drop 1)
 
-def observe (b : B) (srv : S) (ks : List String) : String :=
+/-- the maps of the model are functions; every operation wraps them once more. After each line the driver replaces them
+    by a table lookup over the case's symbols (the same function on every symbol the case can mention), so that a history of
+    thousands of operations does not make every lookup walk thousands of wrappers. The table is built *before* the closure
+    that reads it is made (`compact` returns a structure, not a function, so its `let`s are evaluated once). -/
+def lookupTbl {β : Type} (tbl : Array (String × Option β)) (k : String) : Option β :=
+  match tbl.find? (fun e => e.1 == k) with
+  | some e => e.2
+  | none => none
+
+def mkTbl {β : Type} (univ : List String) (m : String → Option β) : Array (String × Option β) :=
+  (univ.map (fun s => (s, m s))).toArray
+
+def compact (univ : List String) (b : B) : B :=
+  let th := mkTbl univ b.hold
+  let tp := mkTbl univ b.pend
+  let tl := mkTbl univ b.latest
+  { b with hold := lookupTbl th, pend := lookupTbl tp, latest := lookupTbl tl }
+
+def observe (univ : List String) (b : B) (srv : S) (ks : List String) : String :=
   let st := if b.failed then "Failed" else "Ready"
-  let per := allSyms.map (fun s =>
+  let per := univ.map (fun s =>
     let q := match b.latest s with | some q => s!"{fb q.bid} {fb q.ask}" | none => "- -"
     s!"{s} {optF (posValue b s)} {optF (posLiq b s)} {optF (costBasis b.log s)} {optF (positionProfit b s)} {q}")
   let hp : String → Option Float := holdPend b
-  s!"G {fb b.cash} ; H {showMap b.hold} ; P {showMap b.pend} ; HP {showMap hp} ; S {st} ; TV {fb (totalValue b ks)} ; LV {fb (liqValue b ks)} ; K {srv.pos} {srv.date} ; T {b.log.length} {joinSp (b.log.map Drv.Uist.showTrade)} ; V {joinSp per} ; XB {srv.exch.buffer.length} {joinSp (srv.exch.buffer.map Drv.Uist.showOrder)} ; XK {srv.exch.book.inner.length} {joinSp (srv.exch.book.inner.map Drv.Uist.showOrder)} ; XL {srv.exch.log.length} {joinSp (srv.exch.log.map Drv.Uist.showTrade)} ; W {ks.length} {joinSp ks}"
+  s!"G {fb b.cash} ; H {showMap univ b.hold} ; P {showMap univ b.pend} ; HP {showMap univ hp} ; S {st} ; TV {fb (totalValue b ks)} ; LV {fb (liqValue b ks)} ; K {srv.pos} {srv.date} ; T {b.log.length} {joinSp (b.log.map Drv.Uist.showTrade)} ; V {joinSp per} ; XB {srv.exch.buffer.length} {joinSp (srv.exch.buffer.map Drv.Uist.showOrder)} ; XK {srv.exch.book.inner.length} {joinSp (srv.exch.book.inner.map Drv.Uist.showOrder)} ; XL {srv.exch.log.length} {joinSp (srv.exch.log.map Drv.Uist.showTrade)} ; W {ks.length} {joinSp ks}"
 
 def step (w : W) (ts : List String) : W × String :=
   let (op, secs) := splitAnn ts
@@ -93,12 +114,18 @@ def step (w : W) (ts : List String) : W × String :=
                    log := [], costs := w.costs, failed := false }
     ({ w with b := some b, s := some srv }, "ok")
   | o :: rest =>
+    -- `~OP`: performed as usual, only the event is printed
+    let quiet := o.startsWith "~"
+    let o := if quiet then (o.drop 1).toString else o
     match w.b, w.s with
     | some b, some srv =>
       let ks := (secOf secs "W").map (fun l => l.drop 1) |>.getD []
       let fin (w' : W) (ev : String) : W × String :=
         match w'.b, w'.s with
-        | some b', some s' => (w', s!"EV {ev} ; {observe b' s' ks}")
+        | some b', some s' =>
+          let b' := compact (symUniverse w'.syms) b'
+          let w' := { w' with b := some b' }
+          if quiet then (w', s!"EV {ev}") else (w', s!"EV {ev} ; {observe (symUniverse w'.syms) b' s' ks}")
         | _, _ => (w', "bad-op")
       match o, rest with
       | "DEP", [x] => let r := deposit b (f64 x); fin { w with b := some r.2 } (showEv r.1)
